@@ -381,7 +381,7 @@ CHECKS['C16']['jobs'] += _mode_jobs('MODE_SCHED', [27], extra=['WITH_FAILURES'],
 # ---- the real process layer (RealCommandRunner, SubprocessSet, Subprocess, PosixJobserverClient) over the modelled operating system of harness/osmodel.h
 _OS_WRAP = ['pipe', 'close', 'read', 'write', 'open', 'fstat', 'sigemptyset', 'sigaddset', 'sigismember', 'sigprocmask', 'sigpending', 'sigaction', 'posix_spawn_file_actions_init', 'posix_spawn_file_actions_destroy',
             'posix_spawn_file_actions_addclose', 'posix_spawn_file_actions_addopen', 'posix_spawn_file_actions_adddup2', 'posix_spawnattr_init', 'posix_spawnattr_destroy', 'posix_spawnattr_setsigmask',
-            'posix_spawnattr_setflags', 'posix_spawn', 'waitpid', 'kill', 'ppoll']
+            'posix_spawnattr_setflags', 'posix_spawn', 'waitpid', 'kill', 'ppoll', 'getloadavg']
 def _real_runner(jobs, thorough_only=False):
     out = []
     for j in _via_main(jobs, thorough_only):
@@ -497,3 +497,7 @@ CHECKS['C11']['level_text'] += ' One shape lets the dyndep file add as an implic
 CHECKS['C13']['level_text'] += ' A structure-aware job evaluates every variable of a rule whose description, rspfile and rspfile_content each consist of two references chosen among those variables and a literal (all 4^6 reference graphs): evaluation ends, or ends in the documented fatal "cycle in rule variables", never in unbounded recursion.'
 CHECKS['C16']['level_text'] += ' One job uses $in on the command line and $in_newline in the response file of the same statement (and $out in the description), evaluated in every order and repeatedly, each against the sh model, so that what one expansion leaves behind cannot leak into another.'
 CHECKS['C20']['level_text'] += ' One *_procs job lets commands print more (4.2 KiB) than ninja reads from a pipe at once, in two parts or all at once together with the hang-up.'
+CHECKS['C06']['jobs'] += _real_runner(_mode_jobs('MODE_SCHED', [13], extra=['LOAD_LIMIT=2'], suffix='_load', reach=('built', 'started-under-load-limit', 'started-alone-despite-load'), bounds='ninja -l 2 -j {1,2,3}: the load average (0 or 50) changes while ninja waits; every completion order'))
+CHECKS['C06']['level_text'] += ' One *_procs job runs with -l 2 while the load average reported by getloadavg changes between 0 and 50 at every wait: no further command may start while the load exceeds the limit, and the build still finishes (one command at a time).'
+CHECKS['C06']['assumptions'] = [a for a in CHECKS['C06']['assumptions'] if 'load-average' not in a]
+CHECKS['C06']['jobs'] += _mode_jobs('MODE_SCHED', [41], extra=['WITH_FAILURES'], suffix='_fail', reach=('built',), bounds='the same shape with any subset of commands failing, -k in {1,2}: a statement that failed before the dyndep file naming its output is loaded')
